@@ -27,7 +27,7 @@ THEOREMS = [
     "LoadTree.C14_init_once", "LoadTree.C14_init_at_most_once", "LoadTree.C14_init_order", "LoadTree.C14_kwargs",
     "LoadTree.C14_kwargs_ops", "LoadTree.C14_kwargs_pinned_false", "LoadTree.C14_unbalanced_false",
     "LoadTree.C14_procs_see_start", "LoadTree.C14_procs_see_clean", "LoadTree.C14_init_sees_clean_false",
-    "LoadTree.C14_kwargs_ops_general", "LoadTree.C14_kwargs_harmless_alive",
+    "LoadTree.C14_kwargs_ops_general", "LoadTree.C14_kwargs_harmless_alive", "LoadTree.C14_no_init_when_unresolved",
 ]
 CLEAN = [0, False, False, 0]
 
